@@ -12,6 +12,36 @@ PTR_OPS = ['add', 'sub', 'preinc', 'predec', 'postinc', 'postdec']
 BOOL_OPS = ['and', 'or', 'xor', 'add', 'mul', 'preinc', 'postinc', 'postdec']
 
 # python-side types: ('num', prim, atomic) ('enum', atomic) ('void',) ('ptr', T, atomic) ('arr', T, n) ('fn', T) ('agg', isUnion, tag, atomic)
+# declarators: 'n' | ['p', D, Q...] | ['a', D, N] | ['f', D] | ['g', D];  Q = a type qualifier after the `*` (C11 6.7.6.1): the
+# pointer is atomic iff `_Atomic` is among them
+
+RESTRICTS = ['restrict', '__restrict', '__restrict__']
+
+
+def gen_quals(r, pointee, p_any=0.35):
+    """type-qualifier-list after a `*`: any order, any multiplicity.  `restrict` only on pointers to object types (6.7.3p2) and
+    rarely together with `_Atomic` (clang-14 rejects that combination, gcc accepts it: such a case is still compared between
+    chibicc and the model, but the specification cannot be validated on it); `const` rarely (an update of a const object is a
+    constraint violation that chibicc does not diagnose - outside C16 - and clang rejects)"""
+    if r.random() >= p_any:
+        return []
+    qs = []
+    atomic = r.random() < 0.65
+    if atomic:
+        qs.append('_Atomic')
+        if r.random() < 0.12:
+            qs.append('_Atomic')
+    if r.random() < 0.35:
+        qs.append('volatile')
+    if r.random() < 0.07:
+        qs.append('const')
+    is_obj = pointee is None or pointee[0] != 'fn'
+    if is_obj and r.random() < (0.03 if atomic else 0.45):
+        qs.append(r.choice(RESTRICTS))
+        if r.random() < 0.2:
+            qs.append(r.choice(RESTRICTS))
+    r.shuffle(qs)
+    return qs
 
 
 def sx(x):
@@ -37,7 +67,7 @@ def apply_declr(d, t):
     if d == 'n':
         return t
     if d[0] == 'p':
-        return apply_declr(d[1], ('ptr', t, False))
+        return apply_declr(d[1], ('ptr', t, '_Atomic' in d[2:]))
     if d[0] == 'a':
         return apply_declr(d[1], ('arr', t, d[2]))
     if d[0] == 'f':
@@ -92,7 +122,7 @@ class Gen:
                 spec = ['typeofE', e]
         elif c < 0.97:
             ds, t0 = self.gen_spec(depth - 1, want_atomic_bias=0.05)
-            d = self.gen_declr(depth - 1, abstract=True, base=t0, no_array_top=True)
+            d = self.gen_declr(depth - 1, abstract=True, base=t0, no_array_top=True, plain_top=True)
             spec, t = ['atomicOf', ds, d], qualify(apply_declr(d, t0))
             kw = kw if r.random() < 0.1 else 0
         else:
@@ -102,7 +132,7 @@ class Gen:
             t = qualify(t)
         return [kw, spec], t
 
-    def gen_declr(self, depth, abstract=False, base=None, no_array_top=False):
+    def gen_declr(self, depth, abstract=False, base=None, no_array_top=False, plain_top=False):
         """random declarator; keeps the resulting type a valid object type (no array of void / functions)"""
         r = self.rng
         d = 'n'
@@ -115,12 +145,15 @@ class Gen:
             if t is not None and t[0] == 'void':
                 k = 0.0
             if k < 0.6:
-                ops.append(('p',)); t = ('ptr', t, False) if t is not None else None
+                qs = gen_quals(r, t)
+                ops.append(('p', qs)); t = ('ptr', t, '_Atomic' in qs) if t is not None else None
             else:
                 n = r.choice([1, 2, 3, 5])
                 ops.append(('a', n)); t = ('arr', t, n) if t is not None else None
         if no_array_top and ops and ops[-1][0] == 'a':
-            ops.append(('p',))
+            ops.append(('p', []))
+        if plain_top and ops and ops[-1][0] == 'p' and r.random() < 0.9:
+            ops[-1] = ('p', [])     # `_Atomic(T)`: T shall not be a qualified type (6.7.2.4p3); the violation is generated rarely
         # ops[0] applies first to the base type, i.e. it is the outermost (applied first by `apply`)
         for op in reversed(ops):
             pass
@@ -130,7 +163,7 @@ class Gen:
                 return 'n'
             inner = build(i + 1)
             if ops[i][0] == 'p':
-                return ['p', inner]
+                return ['p', inner] + ops[i][1]
             return ['a', inner, ops[i][1]]
         d = build(0)
         if r.random() < 0.08 and d != 'n' and not abstract:
@@ -161,6 +194,8 @@ class Gen:
                 if k == 'ptr':
                     if t[1][0] == 'void':
                         break
+                    if t[1][0] == 'fn' and lv and is_atomic(t) and r.random() < 0.6 and (want is None or want(t)):
+                        break       # the (atomic) function pointer itself is updated
                     if t[1][0] == 'fn':
                         e, t = ['call', e], self.unq(t[1][1])
                         lv = False
@@ -299,15 +334,23 @@ class Gen:
         """`T *g(void);` or `T (*g)(void)`: something returning a pointer"""
         r = self.rng
         ds, t0 = self.gen_spec(1)
-        if t0[0] == 'void':
-            return
         name = self.fresh('g')
-        if r.random() < 0.7:
-            d = ['p', ['f', 'n']]
-            t = ('fn', ('ptr', t0, False))
+        c = r.random()
+        if t0[0] == 'void' or c < 0.2:
+            # T (*Q... g)(void): a pointer to a function, itself possibly atomic (`void (*_Atomic fp)(void)`)
+            if t0[0] in ('arr', 'fn'):
+                return
+            qs = gen_quals(r, ('fn', t0), p_any=0.8)
+            d = ['f', ['p', 'n'] + qs]
+            t = ('ptr', ('fn', t0), '_Atomic' in qs)
+        elif c < 0.65:
+            qr = gen_quals(r, t0)
+            d = ['p', ['f', 'n']] + qr             # T *Q... g(void)
+            t = ('fn', ('ptr', t0, '_Atomic' in qr))
         else:
-            d = ['p', ['f', ['p', 'n']]]          # T *(*g)(void)
-            t = ('ptr', ('fn', ('ptr', t0, False)), False)
+            qr, qs = gen_quals(r, t0), gen_quals(r, ('fn', t0), p_any=0.6)
+            d = ['p', ['f', ['p', 'n'] + qs]] + qr   # T *Q... (*Q... g)(void)
+            t = ('ptr', ('fn', ('ptr', t0, '_Atomic' in qr)), '_Atomic' in qs)
         self.vars.append((name, t, 'global'))
         self.decls.append(['var', 'global', name, ds, d])
 
@@ -420,4 +463,60 @@ FIXED = [
     '(case (decls (var global p (0 (typeofT (1 int) (p n))) n)) (upd and (deref (v p))))',
     '(case (decls (var global p (0 (atomicOf (0 (atomicOf (0 int) n)) (p n))) n)) (upd add (deref (v p))))',
     '(case (decls (var global a (0 (typeofT (1 short) (a n 2))) (a n 2))) (upd shr (idx (idx (v a) 1) 1)))',
+    # `_Atomic` in the qualifier list of a pointer declarator (/repo 1c76c1e): the POINTER is atomic, at every level
+    '(case (decls (var global p (0 int) (p n _Atomic))) (upd postinc (v p)))',
+    '(case (decls (var global p (0 int) (p n _Atomic))) (upd add (v p)))',
+    '(case (decls (var global p (0 int) (p n _Atomic))) (upd predec (v p)))',
+    '(case (decls (var global p (0 int) (p n _Atomic))) (upd add (deref (v p))))',                       # the pointee is plain
+    '(case (decls (var global p (0 int) (p n _Atomic))) (upd postinc (idx (v p) 1)))',
+    '(case (decls (var global p (1 int) (p n _Atomic))) (upd xor (deref (v p))))',                       # both atomic
+    '(case (decls (var global q (0 int) (p (p n) _Atomic))) (upd postinc (deref (v q))))',               # int *_Atomic *q
+    '(case (decls (var global q (0 int) (p (p n) _Atomic))) (upd postinc (v q)))',                       # q itself is plain
+    '(case (decls (var global q (0 int) (p (p n) _Atomic))) (upd sub (deref (deref (v q)))))',
+    '(case (decls (var global q (0 int) (p (p n _Atomic)))) (upd sub (v q)))',                           # int **_Atomic q
+    '(case (decls (var global q (0 long) (p (p (p n _Atomic)) _Atomic))) (upd preinc (idx (v q) 0)))',   # plain middle level
+    '(case (decls (var global a (0 int) (p (a n 3) _Atomic))) (upd add (idx (v a) 2)))',                 # int *_Atomic a[3]
+    '(case (decls (var global a (0 char) (p (a (a n 2) 3) volatile _Atomic))) (upd postdec (idx (idx (v a) 1) 2)))',
+    '(case (decls (var global a (0 int) (a (g (p n _Atomic)) 3))) (upd postinc (v a)))',                 # int (*_Atomic a)[3]
+    '(case (decls (var global a (0 int) (a (g (p n _Atomic)) 3))) (upd or (idx (deref (v a)) 1)))',
+    '(case (decls (struct S (c (0 char) n 0) (m (0 int) (p n _Atomic) 0)) (var global s (0 (struct S)) n)) (upd postinc (mem (v s) m)))',
+    '(case (decls (struct S (c (0 char) n 0) (m (0 int) (p n _Atomic) 0)) (var global s (0 (struct S)) n) (var local q (0 (struct S)) (p n))) (upd sub (arrow (v q) m)))',
+    '(case (decls (struct S (c (0 char) n 0) (m (0 int) (p n _Atomic) 0)) (var global s (0 (struct S)) n)) (upd mul (deref (mem (v s) m))))',
+    '(case (decls (struct N (next (0 (struct N)) (p n _Atomic) 0) (v (0 int) n 0)) (var global h (0 (struct N)) (p n))) (upd postinc (arrow (v h) next)))',
+    '(case (decls (struct N (next (0 (struct N)) (p n _Atomic) 0) (v (0 int) n 0)) (var global h (0 (struct N)) (p n))) (upd postinc (arrow (arrow (v h) next) v)))',
+    '(case (decls (union U (m (0 short) (p n _Atomic) 0) (y (0 long) n 0)) (var global u (0 (union U)) n)) (upd preinc (mem (v u) m)))',
+    '(case (decls (typedef ap (0 int) (p n _Atomic)) (var global x (0 (tdef ap)) n)) (upd postinc (v x)))',
+    '(case (decls (typedef ap (0 int) (p n _Atomic)) (var global x (0 (tdef ap)) (a n 2))) (upd add (idx (v x) 1)))',
+    '(case (decls (typedef ap (0 int) (p n _Atomic)) (var global x (0 (tdef ap)) (p n))) (upd predec (deref (v x))))',
+    '(case (decls (typedef ip (0 int) (p n)) (var global x (0 (tdef ip)) (p n _Atomic))) (upd add (v x)))',
+    '(case (decls (var param p (0 int) (p n _Atomic))) (upd postinc (v p)))',
+    '(case (decls (var param p (0 int) (p (a n 2) _Atomic))) (upd postinc (idx (v p) 1)))',              # int *_Atomic p[2] -> pointer to atomic pointer
+    '(case (decls (var param p (0 int) (p (a n 2) _Atomic))) (upd postinc (v p)))',
+    '(case (decls (var global fp (0 void) (f (p n _Atomic)))) (upd add (v fp)))',                        # void (*_Atomic fp)(void)
+    '(case (decls (var global fp (0 int) (p (f (p n _Atomic))))) (upd add (v fp)))',                     # int *(*_Atomic fp)(void)
+    '(case (decls (var global fp (0 int) (p (f (p n _Atomic))))) (upd sub (deref (call (v fp)))))',
+    '(case (decls (var global g (0 int) (p (f n) _Atomic))) (upd postinc (deref (call (v g)))))',        # int *_Atomic g(void): an rvalue
+    '(case (decls (var local p (0 int) (p n _Atomic))) (upd postdec (v p)))',
+    '(case (decls (var slocal p (0 int) (p n _Atomic))) (upd postinc (v p)))',
+    '(case (decls (var tls p (0 int) (p n _Atomic))) (upd preinc (v p)))',
+    '(case (decls (var extern p (0 double) (p n _Atomic))) (upd sub (v p)))',
+    '(case (decls (var global p (0 void) (p n _Atomic))) (upd add (v p)))',                              # void *_Atomic
+    '(case (decls (var global p (0 (struct Z)) (p n _Atomic))) (upd postinc (v p)))'.replace('(0 (struct Z))', '(0 int)'),
+    # the whole qualifier list: order and multiplicity
+    '(case (decls (var global p (0 int) (p n const volatile restrict __restrict __restrict__))) (upd postinc (v p)))',
+    '(case (decls (var global p (0 int) (p n volatile _Atomic))) (upd postinc (v p)))',
+    '(case (decls (var global p (0 int) (p n _Atomic volatile))) (upd postinc (v p)))',
+    '(case (decls (var global p (0 int) (p n _Atomic _Atomic))) (upd postinc (v p)))',
+    '(case (decls (var global p (0 int) (p n restrict _Atomic __restrict__ volatile _Atomic __restrict))) (upd add (v p)))',
+    '(case (decls (var global p (0 int) (p n const _Atomic))) (upd add (v p)))',
+    '(case (decls (var global p (0 int) (p (g n) _Atomic))) (upd postinc (v p)))',                       # int *_Atomic (p)
+    '(case (decls (var global p (0 int) (p (g n) _Atomic volatile))) (upd postinc (v p)))',
+    # type names: typeof, casts, _Atomic( )
+    '(case (decls (var global p (0 (typeofT (0 int) (p n _Atomic))) n)) (upd postinc (v p)))',
+    '(case (decls (var global p (0 int) (p n _Atomic)) (var global r (0 (typeofE (v p))) n)) (upd postinc (v r)))',
+    '(case (decls (var global p (0 int) (p n _Atomic)) (var global r (0 (typeofE (addr (v p)))) n)) (upd postinc (deref (v r))))',
+    '(case (decls (var global p (0 int) (p n))) (upd postinc (deref (cast (0 int) (p (p n) _Atomic) (addr (v p))))))',
+    '(case (decls (var global p (0 int) (p n))) (upd postinc (deref (addr (cast (0 int) (p n _Atomic) (v p))))))'.replace('(deref (addr (cast (0 int) (p n _Atomic) (v p))))', '(deref (cast (0 int) (p (p n _Atomic)) (addr (v p))))'),
+    '(case (decls (var global p (0 (atomicOf (0 int) (p n _Atomic))) n)) (upd postinc (v p)))',          # _Atomic(int *_Atomic): constraint violation
+    '(case (decls (var global p (0 (atomicOf (0 int) (p (p n) _Atomic))) n)) (upd postinc (deref (v p))))',
 ]
